@@ -185,12 +185,48 @@ async def sk_pop3_quit_after_imap_expunge(hp, w, rnd, ctx):
     await w.observe()
 
 
+async def sk_expunge_after_a_pack(hp, w, rnd, ctx):
+    """A lower block of messages is expunged so that the folder qualifies for
+    packing (threshold lowered for this script); single messages further up are
+    flagged \\Deleted; idle time lets the management task pack (the files are
+    renumbered); EXPUNGE / UID EXPUNGE / CLOSE then remove exactly the flagged
+    messages, and MOVE/COPY take the ones addressed."""
+    a, b2 = w.session(), w.session()
+    await w.op_create(a, "other")
+    for i in range(14):
+        await w.op_append(a, "INBOX", flags=rnd.choice([None, ["\\Seen"], ["kw1"]]))
+    await w.op_select(a, "INBOX")
+    await w.op_select(b2, "INBOX")
+    await w.op_store(a, [1, 2, 3, 4, 6], "add", ["\\Deleted"])
+    await w.op_expunge(a)
+    await w.op_noop(b2)
+    await w.observe()
+    await w.op_store(a, [3, 7], "add", ["\\Deleted"])
+    await w.op_store(b2, [5], "add", ["\\Flagged"])
+    for _ in range(6):
+        await w.rig.advance(5)  # idle: the management task may pack now
+    await w.op_noop(b2)
+    await w.op_expunge(a)
+    await w.op_noop(b2)
+    await w.observe()
+    us = [m.uid for m in w.boxes["INBOX"].msgs if m.uid is not None]
+    if len(us) >= 6:
+        await w.op_store(b2, [us[1], us[4]], "add", ["\\Deleted"], uid_mode=True)
+        await w.op_expunge(b2, uids=[us[4]])
+        await w.observe()
+        await w.op_copy(a, [us[0], us[2]], "other", uid_mode=True, move=True)
+        await w.observe()
+    await w.op_unselect(b2, close=True)
+    await w.observe()
+
+
 class C05(HistProp):
     prop = PROP
+    pack_limits = [100, 100, 100, 100, 6, 100, 100, 4]
     names = ["INBOX", "other"]
-    skeletons = [sk_uid_expunge_sparse, sk_examine_session, sk_copy_same_mailbox_and_missing, sk_placeholder_destination, sk_move_naming_nothing, sk_rename_inbox_then_arrivals, sk_pop3_quit_after_imap_expunge]
+    skeletons = [sk_uid_expunge_sparse, sk_examine_session, sk_copy_same_mailbox_and_missing, sk_placeholder_destination, sk_move_naming_nothing, sk_rename_inbox_then_arrivals, sk_pop3_quit_after_imap_expunge, sk_expunge_after_a_pack]
     weights = {"append": 9, "store_del": 10, "store": 4, "uid_store": 3, "expunge": 8, "uid_expunge": 7, "copy": 7, "uid_copy": 5, "move": 6, "uid_move": 4,
-               "close": 4, "examine": 4, "fetch_body": 3, "deliver": 2, "noop": 4, "idle": 1}
+               "close": 4, "examine": 4, "fetch_body": 3, "deliver": 2, "noop": 4, "idle": 1, "advance": 2}
     opts = {"examine_prob": 0.3}
     observer_cadence = [1]
     initial = (2, 8)
